@@ -48,7 +48,7 @@ Print Assumptions c18_hash_material_unrepaired_refuted.
 (* a failed / missing / skipped (non order-only) input: the external command is never executed *)
 Theorem c18_decide_failed_input_never_runs : forall x c prior ins outs,
   existsb is_bad (requested ins) = true -> decide x c prior ins outs <> DRun.
-Proof. exact decide_bad_input_never_runs. Qed.
+Proof. exact decide_failed_input_never_runs. Qed.
 Print Assumptions c18_decide_failed_input_never_runs.
 
 (* ... it is skipped (the flag says whether a MISSING input is reported as a command failure) ... *)
@@ -56,13 +56,13 @@ Theorem c18_decide_failed_input_skips : forall x c prior ins outs,
   existsb is_bad (requested ins) = true ->
   x_cancelled x = false -> c_phony c = false -> x_simulate x = false ->
   decide x c prior ins outs = DSkip (existsb is_missing_input (requested ins)).
-Proof. exact decide_bad_input_skips. Qed.
+Proof. exact decide_failed_input_skips. Qed.
 Print Assumptions c18_decide_failed_input_skips.
 
 (* ... and never completed as up to date, whatever the flags *)
 Theorem c18_decide_failed_input_never_updates : forall x c prior ins outs,
   existsb is_bad (requested ins) = true -> decide x c prior ins outs <> DUpdateOnly.
-Proof. exact decide_bad_input_never_updates. Qed.
+Proof. exact decide_failed_input_never_updates. Qed.
 Print Assumptions c18_decide_failed_input_never_updates.
 
 Theorem c18_shortcut_false_reasons : forall x c prior ins outs,
@@ -83,7 +83,7 @@ Theorem c18_decide_unrepaired_failed_input_refuted :
     produced c outs (decide_unrepaired x c prior ins outs) = Some (command_result c outs) /\
     command_valid c (command_result c outs) outs = Some true /\
     decide x c prior ins outs = DSkip true.
-Proof. exact decide_unrepaired_bad_input_refuted. Qed.
+Proof. exact decide_unrepaired_failed_input_refuted. Qed.
 Print Assumptions c18_decide_unrepaired_failed_input_refuted.
 
 Theorem c18_skip_never_valid : forall c outs, command_valid c NSkippedCommand outs = Some false.
